@@ -7,6 +7,7 @@ import Driver.Format
 import Driver.Sort
 import Driver.Exclude
 import Driver.Qualify
+import Driver.Tx
 open Lean
 
 def dispatch (j : Json) : Json :=
@@ -22,6 +23,8 @@ def dispatch (j : Json) : Json :=
   | "glob" => Driver.handleGlob j
   | "qualify" => Driver.handleQualify j
   | "scope" => Driver.handleScope j
+  | "tx.plan" => Driver.handleTxPlan j
+  | "tx.schema" => Driver.handleTxSchema j
   | "h1" => Json.mkObj [("h", Atlas.Base.h1 (Driver.unhex (Driver.str j "hex")))]
   | op => Json.mkObj [("err", s!"unknown-op:{op}")]
 
